@@ -173,6 +173,13 @@ func rulesC19(r *Run) {
 			if (visits[0].field != "" || visits[0].inLoop) && badShape == "" {
 				badShape, posShape = "the object itself is not yielded first and unconditionally (first visit on a path: "+showField(visits[0].field)+")", visits[0].pos
 			}
+			// A walk that runs to its end (every visitor answered true) may leave a child out only because it is
+			// absent: assume the child present and the path must be impossible.
+			if badShape == "" {
+				if f, guard := unjustifiedSkip(fl, p, visits, isSubj, s.typ, s.want, isList, visitors); f != "" {
+					badShape, posShape = "a walk that is not stopped by its consumer ends without visiting "+f+" although nothing on the path establishes that it is absent (exit guard "+guard+"): objects held there are silently left out for some plan shapes", fn.Decl.Pos()
+				}
+			}
 			// order: a subsequence of the expected order, every field at most once
 			wi := 0
 			for _, v := range visits {
@@ -452,10 +459,28 @@ func rulePlanReturnsStored(r *Run, rule string) {
 	}
 	bad := ""
 	seen := false
+	errAtom := func(e ast.Expr) (string, bool, bool) {
+		if x, op, ok := IsNilCompare(fl.Info, e); ok && isBuilderField(fl.Info, x, "err") {
+			return "err-stored", op == token.EQL, true
+		}
+		return "", false, false
+	}
 	for i := range paths {
 		p := &paths[i]
 		if p.Exit != ExitReturn {
 			continue
+		}
+		// while an error is stored Plan() must not change the builder (marking it emitted would make the next
+		// Plan() report "called twice" instead of the first error)
+		for j, e := range p.Ev {
+			if e.Kind != EvAssign {
+				continue
+			}
+			for _, l := range e.Lhs {
+				if _, isSel := ast.Unparen(l).(*ast.SelectorExpr); isSel && bad == "" && !PathRefutedRange(fl, p, 0, j, map[string]bool{"err-stored": true}, errAtom) {
+					bad = "Plan() assigns " + ExprStr(l) + " on a path that is possible while an error is stored: every later call and Plan() must keep returning the first error until Reset, so nothing may change"
+				}
+			}
 		}
 		errSet := false
 		for _, e := range p.Ev {
@@ -1072,4 +1097,75 @@ func walkVisitsOnPath(fl *Flow, p *Path, isSubj func(ast.Expr) bool, typ string,
 		}
 	}
 	return
+}
+
+// unjustifiedSkip: on a path where no visitor answered false, a child-bearing field that is not visited must be
+// established absent (nil, or for a list empty / iterated by a loop that found nothing).
+func unjustifiedSkip(fl *Flow, p *Path, visits []walkVisit, isSubj func(ast.Expr) bool, typ string, want []string, isList map[string]bool, visitors map[string]bool) (field, guard string) {
+	info := fl.Info
+	// the visitor calls of this path, as atoms "answered true"
+	calls := map[*ast.CallExpr]bool{}
+	for _, v := range visits {
+		calls[v.call] = true
+	}
+	answered := func(e ast.Expr) (string, bool, bool) {
+		if c, ok := ast.Unparen(e).(*ast.CallExpr); ok && calls[c] {
+			return "all-answered-true", false, true
+		}
+		return "", false, false
+	}
+	if PathRefuted(fl, p, -1, map[string]bool{"all-answered-true": true}, answered) {
+		return "", "" // the consumer stopped the walk on this path
+	}
+	visited := map[string]bool{}
+	for _, v := range visits {
+		visited[v.field] = true
+	}
+	isField := func(e ast.Expr, f string) bool {
+		base, m := FieldPath(info, e, typ, f)
+		return m && isSubj(base)
+	}
+	for _, f := range want {
+		if f == "" || visited[f] {
+			continue
+		}
+		f := f
+		if isList[f] {
+			// a loop over the list ran on this path (and found nothing to visit, or it would be among the visits)
+			ranged := false
+			for _, e := range p.Ev {
+				if e.Kind == EvRange && e.Chan != nil && isField(e.Chan, f) {
+					ranged = true
+				}
+			}
+			if ranged {
+				continue
+			}
+		}
+		present := func(e ast.Expr) (string, bool, bool) {
+			e = ast.Unparen(e)
+			if x, op, ok := IsNilCompare(info, e); ok && isField(x, f) {
+				return "present", op == token.EQL, true
+			}
+			if be, ok := e.(*ast.BinaryExpr); ok {
+				if lc, ok := ast.Unparen(be.X).(*ast.CallExpr); ok && len(lc.Args) == 1 {
+					if id, ok := lc.Fun.(*ast.Ident); ok && id.Name == "len" && isField(lc.Args[0], f) {
+						if k, isC := ConstInt(info, be.Y); isC && k == 0 {
+							switch be.Op {
+							case token.EQL:
+								return "present", true, true
+							case token.NEQ, token.GTR:
+								return "present", false, true
+							}
+						}
+					}
+				}
+			}
+			return "", false, false
+		}
+		if !PathRefuted(fl, p, -1, map[string]bool{"present": true}, present) {
+			return f, ExitGuardKey(fl, p)
+		}
+	}
+	return "", ""
 }
